@@ -518,7 +518,7 @@ func txState(c *chain.Chain, tx *types.Transaction) int {
 
 func main() {
 	r := vf.NewRun("C33", "exploration",
-		"solo ledger; per side chain (n in {4,7,10} generated peers, several chains per n) a syncGenesisHeader tx signed by the operator, then one syncBlockHeader invoke tx per case carrying one forged header at its own height with Bookkeepers/SigData from 18 list shapes (honest, permuted, surplus sigs, below 2/3, one peer repeated k>=2n/3 times with repeated or fresh signatures, A,B + duplicates, few + duplicates, 2/3 distinct + duplicates, listed but few signing, one signature repeated, padded, non-peers listed/padding/signing, other hash, garbage, empty, random mix); acceptance read from the committed header index; distinct by (n, shape, key list, signature list)")
+		"solo ledger; per side chain (n in {4,7,10,40} generated peers, several chains per n) a syncGenesisHeader tx signed by the operator, then one syncBlockHeader invoke tx per case carrying one forged header at its own height with Bookkeepers/SigData from 18 list shapes (honest, permuted, surplus sigs, below 2/3, one peer repeated k>=2n/3 times with repeated or fresh signatures, A,B + duplicates, few + duplicates, 2/3 distinct + duplicates, listed but few signing, one signature repeated, padded, non-peers listed/padding/signing, other hash, garbage, empty, random mix); acceptance read from the committed header index; distinct by (n, shape, key list, signature list)")
 	scratch := vf.Scratch("c33")
 	defer os.RemoveAll(scratch)
 	rng := vf.NewRNG(vf.Seed())
@@ -538,8 +538,8 @@ func main() {
 	var all []*kase
 	blockNo := 0
 	chainNo := 0
-	for ni, n := range []int{4, 7, 10} {
-		nCases := total / 3
+	for ni, n := range []int{4, 7, 10, 40} {
+		nCases := total / 4
 		for seg := 0; seg*perChain < nCases; seg++ {
 			chainNo++
 			sc := &sideChain{id: uint64(1000*n + seg), n: n, q: (2*n + 2) / 3, tag: fmt.Sprintf("%s/n%d/chain%d", tag, n, seg)}
@@ -765,7 +765,7 @@ func main() {
 	for _, s := range shs {
 		r.Require("shape/"+s.name, 9)
 	}
-	for _, n := range []int{4, 7, 10} {
+	for _, n := range []int{4, 7, 10, 40} {
 		r.Require(fmt.Sprintf("n=%d", n), 100)
 	}
 	r.Require("side_chain_genesis_synced", 3)
